@@ -786,6 +786,30 @@ class FunctionTerms:
             self._cls_stack.pop()
         return _fold_returns(frame["returns"], len(base_ctx), falls_through=not _terminates(callee.node.body))
 
+    def _class_constant(self, attr: str):
+        """``self.X`` where X is a class-level constant of the current class: bound once in the class body to a scalar literal or to a closed
+        ``slice(..)``, never stored through an attribute anywhere in the package, and a name no rule knows.  None otherwise."""
+        from .core import _closed_int
+        mod, cls = self._cls_stack[-1]
+        if attr in self.prog.vocabulary() or attr.startswith("__"):
+            return None
+        binds = [st for st in cls.body if isinstance(st, (ast.Assign, ast.AnnAssign))
+                 for t in (st.targets if isinstance(st, ast.Assign) else [st.target]) if isinstance(t, ast.Name) and t.id == attr]
+        if len(binds) != 1 or binds[0].value is None or any(isinstance(st, ast.FunctionDef) and st.name == attr for st in cls.body):
+            return None
+        cache = self.prog.__dict__.setdefault("_const_cache", {})
+        if "__attr_stores__" not in cache:
+            cache["__attr_stores__"] = {n.attr for mm in self.prog.modules.values() for n in ast.walk(mm.tree)
+                                        if isinstance(n, ast.Attribute) and isinstance(n.ctx, (ast.Store, ast.Del))}
+        if attr in cache["__attr_stores__"]:
+            return None
+        v = binds[0].value
+        if isinstance(v, ast.Constant) and (v.value is None or isinstance(v.value, (bool, int, float, str))):
+            return ("const", v.value)
+        if isinstance(v, ast.Call) and isinstance(v.func, ast.Name) and v.func.id == "slice" and not v.keywords and 1 <= len(v.args) <= 3 and all(_closed_int(a) for a in v.args):
+            return (mod, v)
+        return None
+
     def _param_record_fields(self, name: str):
         """Fields of the record class (NamedTuple / frozen dataclass of the package) a parameter of this function is annotated with."""
         a = self.ref.node.args
@@ -1179,6 +1203,10 @@ class FunctionTerms:
             fields = self._nt_fields.get(base)
             if fields is None and base[0] == "call" and base[1][0] == "global" and base[1][1].startswith(self.prog.PKG + "."):
                 fields = self.prog.returned_namedtuple(base[1][1])
+            if base == ("param", "self") and self._cls_stack and self._cls_stack[-1] is not None:
+                cv = self._class_constant(e.attr)
+                if cv is not None:
+                    return cv if isinstance(cv, tuple) and cv and cv[0] in ("const", "slice") else self._named_value(cv, ctx)
             if fields is None and base[0] == "param" and not self._inline_stack:
                 fields = self._param_record_fields(base[1])
             if fields is not None and e.attr in fields:
@@ -1250,6 +1278,11 @@ class FunctionTerms:
             if f in (("global", "float"), ("global", "int")) and len(args) == 1 and not kws and args[0][0] == "const" and type(args[0][1]) in (int, float) \
                     and (f[1] == "float" or type(args[0][1]) is int):
                 return ("const", float(args[0][1]) if f[1] == "float" else args[0][1])
+            # len(<IntEnum class of the package>) is the number of its members
+            if f == ("global", "len") and len(args) == 1 and not kws and args[0][0] == "global" and args[0][1].startswith(self.prog.PKG + "."):
+                members = self.prog.int_enum_members(self.prog.chase(args[0][1]))
+                if members is not None:
+                    return ("const", len(members))
             # functools.reduce(operator.add, it, 0) is sum(it)
             if f == ("global", "functools.reduce") and len(args) == 3 and not kws and args[2] == ("const", 0) and (
                     args[0] == ("global", "operator.add") or (args[0][0] == "lambda" and len(args[0][1]) == 2 and args[0][2] in (
@@ -1291,6 +1324,11 @@ class FunctionTerms:
             inl = self._inline_call(f, args, kws, env, ctx) if f[0] != "ifexp" else None
             if inl is not None:
                 return inl
+            if f[0] == "ifexp" and all(fb[0] in ("global", "attr") for fb in (f[2], f[3])):
+                # a function chosen by a conditional and then applied: each alternative is read through like a direct call of that helper
+                alts = [self._inline_call(fb, args, kws, env, ctx) for fb in (f[2], f[3])]
+                if all(a is not None for a in alts):
+                    return ("ifexp", f[1], alts[0], alts[1])
             # x.sum() / x.max(axis=1) / x.argmin() ... are recorded as the NumPy function form np.sum(x) / np.max(x, axis=1) / np.argmin(x)
             if f[0] == "attr" and f[2] in NUMPY_REDUCTIONS and f[1][0] != "global":
                 return ("call", ("global", "numpy." + f[2]), (f[1],) + tuple(args), tuple(kws))
